@@ -242,4 +242,69 @@ example :
     (is_url exampleEnv "http:///x@a.com".toList { tld_aware := true }).toOption = some false := by
   decide
 
+/-! ## urls_from_text -/
+
+/-- the table obligations `urls_from_text` rests on -/
+theorem pattern_facts : PatternFacts :=
+  ⟨in_text_not_nullable, in_text_no_whitespace_class, in_text_anchorFree.1, shape_in_text,
+    patterns_noNullRep.2.1⟩
+
+/-- **urls_from_text never raises** (in particular no `IndexError` in the trimming loop on a
+markdown link without target) -/
+theorem yield_total (text : Str) : ∃ ys, urls_from_text text = .ok ys := by
+  obtain ⟨ys, h, _⟩ := urls_from_text_spec pattern_facts text
+  exact ⟨ys, h⟩
+
+/-- **every yield is a substring of the text and the yields come in order of appearance**: the
+text is `a₁ ++ y₁ ++ a₂ ++ y₂ ++ … ++ aₖ₊₁` (disjoint occurrences, in this order), also for the
+two halves of a markdown link -/
+theorem yield_substring_in_order (text : Str) (ys : List Str) (h : urls_from_text text = .ok ys) :
+    InOrder ys text ∧ ∀ y ∈ ys, ∃ a b, text = a ++ y ++ b := by
+  obtain ⟨ys', h', ho, _⟩ := urls_from_text_spec pattern_facts text
+  rw [h] at h'
+  cases h'
+  exact ⟨ho, ho.mem_substring⟩
+
+/-- **every yield is non-empty and has no surrounding whitespace** (`y == y.strip()`) -/
+theorem yield_nonempty_no_ws (text : Str) (ys : List Str) (h : urls_from_text text = .ok ys) :
+    ∀ y ∈ ys, y ≠ [] ∧ strip y = y := by
+  obtain ⟨ys', h', _, hg⟩ := urls_from_text_spec pattern_facts text
+  rw [h] at h'
+  cases h'
+  exact fun y hy => ⟨(hg y hy).1, (hg y hy).2.1⟩
+
+/-- **every yield is accepted by `is_url(require_protocol=True, only_http_https=False)`**, also
+the two halves of a markdown link and what is left after trimming trailing punctuation -/
+theorem yield_is_url (text : Str) (ys : List Str) (h : urls_from_text text = .ok ys) :
+    ∀ y ∈ ys, ∀ env, is_url env y { require_protocol := true, only_http_https := false } = .ok true := by
+  obtain ⟨ys', h', _, hg⟩ := urls_from_text_spec pattern_facts text
+  rw [h] at h'
+  cases h'
+  intro y hy env
+  have := (hg y hy).2.2
+  rw [is_url_no_tld _ _ _ rfl]
+  simp only [isUrlPB, Bool.and_eq_true, Bool.not_eq_true'] at this
+  simp [pattern, this.1, this.2]
+
+/-- **every yield carries a protocol**: it starts with a word of `[a-zA-Z]{0,64}:?//` -/
+theorem yield_has_protocol (text : Str) (ys : List Str) (h : urls_from_text text = .ok ys) :
+    ∀ y ∈ ys, ∃ p b, y = p ++ b ∧ Lang protoRe p := by
+  obtain ⟨ys', h', _, hg⟩ := urls_from_text_spec pattern_facts text
+  rw [h] at h'
+  cases h'
+  intro y hy
+  obtain ⟨_, hs, hu⟩ := hg y hy
+  simp only [isUrlPB, hs, Bool.and_eq_true] at hu
+  exact prefix_of_spine shape_url_with_protocol.1 in_text_anchorFree.2 (pyMatch_sound hu.2)
+
+/-- non-vacuity: a text with punctuation after a url, a complete markdown link whose first half
+is a url, a truncated one, a non-url half, and a TLD made of an ellipsis that trimming would
+cut into -/
+example :
+    (urls_from_text "see http://a.com/x). and [http://b.org/](http://c.fr/y)…".toList).toOption =
+      some ["http://a.com/x".toList, "http://b.org/".toList, "http://c.fr/y".toList] ∧
+    (urls_from_text "[http://a.com/](".toList).toOption = some ["http://a.com/".toList] ∧
+    (urls_from_text "[http://a.com/a](b c)".toList).toOption = some ["http://a.com/a".toList] ∧
+    (urls_from_text "http://a.c…".toList).toOption = some [] := by decide
+
 end Ural.Props.C16
